@@ -202,18 +202,45 @@ func VerifC05Journal() {
 // VerifC05WAL: the process dies at any step of a WAL transaction and its capture.
 func VerifC05WAL() {
 	ctx := context.Background()
-	w, m := verifC03Setup(2)
-	db := w.db
-	m.verifStartWAL(ctx, w, true)
-	m.verifC03Tx(ctx, w, 1, true)
-	if !m.verifC03Release(ctx, w, "c05.wal.setup") {
-		rt.Fail("harness: setup transaction not captured")
+	var w *verifWorld
+	var m *verifWALModel
+	var db *DB
+	var imgBefore [][]byte
+	if rt.Choose("first.wal.tx.after.mode.switch", 2) == 1 {
+		// the newest transaction file is the rollback-journal commit that switched the database to WAL mode
+		// (it carries no WAL position); the crashing transaction is the first one in the new log
+		w = verifNewStore(true)
+		img0 := verifImage("img0", 2, false)
+		w.verifOpenDB(img0, 41)
+		db = w.db
+		jf, err := db.CreateJournal()
+		must(err)
+		must(db.WriteJournalAt(ctx, jf, verifJournalHeader(0, 0, 2), 0, 1))
+		dbf, err := db.OpenDatabase(ctx)
+		must(err)
+		p1 := rt.Bytes("switch", verifP)
+		verifHeaderPage(p1, 2, true)
+		must(db.WriteDatabaseAt(ctx, dbf, p1, 0, 1))
+		must(db.RemoveJournal(ctx))
+		rt.Check(db.Mode() == DBModeWAL && db.Pos().TXID == 42, "harness: mode switch committed through the journal")
+		m = &verifWALModel{salt1: rt.U32("wal.salt1"), salt2: rt.U32("wal.salt2"), overlay: map[uint32][]byte{}, pageN: 2}
+		m.verifStartWAL(ctx, w, true)
+		_ = db.Unlock(ctx, 1, []LockType{LockTypeWrite})
+		imgBefore = [][]byte{p1, img0[1]}
+	} else {
+		w, m = verifC03Setup(2)
+		db = w.db
+		m.verifStartWAL(ctx, w, true)
+		m.verifC03Tx(ctx, w, 1, true)
+		if !m.verifC03Release(ctx, w, "c05.wal.setup") {
+			rt.Fail("harness: setup transaction not captured")
+		}
+		if m.pageN != 2 || m.overlay[1] == nil || m.overlay[2] != nil {
+			rt.Assume(false) // setup transaction: page 1 only, size unchanged
+		}
+		imgBefore = [][]byte{append([]byte{}, m.overlay[1]...), append([]byte{}, w.verifReadImage()[1]...)}
 	}
 	before := db.Pos()
-	if m.pageN != 2 || m.overlay[1] == nil || m.overlay[2] != nil {
-		rt.Assume(false) // setup transaction: page 1 only, size unchanged
-	}
-	imgBefore := [][]byte{append([]byte{}, m.overlay[1]...), append([]byte{}, w.verifReadImage()[1]...)}
 	k := rt.Choose("crash.at", verifC05MaxOps)
 	var data []byte
 	crashed := verifC05Crashed(k, func() {
